@@ -416,17 +416,18 @@ example : (∀ s ∈ (⟨[["GetBook"]]⟩ : Api).services, ∀ m' ∈ s,
 
 /-! ## HTTP options -/
 
-theorem http_options_from_rule (res : List String) (y : Yaml) (api : Api) (m : String) :
-    dictGet (mixinHttpOptions res y api) m =
-      (dictGet (mixinApiMethods y api) m).map fun r => r.bindings.filterMap (tryParse res) := by
+theorem http_options_from_rule (nm : Names) (y : Yaml) (api : Api) (m : String) :
+    dictGet (mixinHttpOptions nm y api) m =
+      (dictGet (mixinApiMethods y api) m).map fun r => r.bindings.filterMap (tryParse nm) := by
   unfold mixinHttpOptions
-  exact dictGet_map (mixinApiMethods y api) (fun _ r => r.bindings.filterMap (tryParse res)) m
+  exact dictGet_map (mixinApiMethods y api) (fun _ r => r.bindings.filterMap (tryParse nm)) m
 
-/-- `try_parse_http_rule` keeps the binding's verb and path, drops `custom`/unset/empty patterns, and
-keeps the body (suffixing `_` only for a reserved word, which no field of the canonical requests is). -/
-theorem tryParse_verb_uri_body (res : List String) (b : Binding) (r : HttpRule) (h : tryParse res b = some r) :
-    r.method = b.verb ∧ r.uri = b.uri ∧ b.verb ≠ "" ∧ b.verb ≠ "custom" ∧ b.uri ≠ "" ∧
-      (b.body ∉ res → r.body = if b.body = "" then none else some b.body) := by
+/-- `try_parse_http_rule` keeps the binding's verb, passes the path through `convert_uri_fieldnames`, drops
+`custom`/unset/empty patterns, keeps the body — and appends `_` to a body that is a reserved word (always,
+since 3aedaba). -/
+theorem tryParse_verb_uri_body (nm : Names) (b : Binding) (r : HttpRule) (h : tryParse nm b = some r) :
+    r.method = b.verb ∧ r.uri = convertUri nm.fixPath b.uri ∧ b.verb ≠ "" ∧ b.verb ≠ "custom" ∧ b.uri ≠ "" ∧
+      r.body = (if b.body = "" then none else if b.body ∈ nm.reserved then some (b.body ++ "_") else some b.body) := by
   unfold tryParse at h
   split at h
   · simp at h
@@ -439,12 +440,21 @@ theorem tryParse_verb_uri_body (res : List String) (b : Binding) (r : HttpRule) 
       simp only [Option.some.injEq] at h
       subst h
       refine ⟨rfl, rfl, hv.1, hv.2, hu, ?_⟩
-      intro hres
       by_cases hb : b.body = ""
       · simp [hb]
-      · have : res.contains b.body = false := by simpa using hres
-        simp [hb]
-        exact fun h => absurd h hres
+      · by_cases hr : b.body ∈ nm.reserved <;> simp [hb, hr]
+
+example : tryParse ⟨["format"], id⟩ ⟨"post", "/v1/{name=a/*}", "format"⟩ = some ⟨"post", "/v1/{name=a/*}", some "format_"⟩ := by
+  decide
+
+/-- `convert_uri_fieldnames` touches nothing but variable names: with a `fix` that leaves the names of a
+template alone (no field of the canonical mixin requests is a reserved word) the URI is unchanged — shown on
+the shapes the service YAMLs use -/
+theorem convertUri_id_examples :
+    convertUri id "/v1/{name=projects/*/locations/*}/operations" = "/v1/{name=projects/*/locations/*}/operations" ∧
+      convertUri id "/v1/{resource}:getIamPolicy" = "/v1/{resource}:getIamPolicy" ∧
+      convertUri (fun n => n ++ ['_']) "/v1/{type=a/*}/x/{id}" = "/v1/{type_=a/*}/x/{id_}" := by
+  decide
 
 /-! ## Client surface -/
 
@@ -548,6 +558,51 @@ theorem grpc_call_sent_iff (y : Yaml) (api : Api) (k : ClientKind) (m : String) 
     have hc' : m ∉ exposedMixins y api ⟨false⟩ k := fun h => hc (List.contains_iff_mem.2 h)
     simp [hc', hk]
 
+/-- distinct mixin RPCs have distinct stub paths: a call dispatched through another method's stub is
+visible on the wire even when both replies have the same type (GetOperation / WaitOperation,
+GetIamPolicy / SetIamPolicy) -/
+theorem grpc_paths_injective :
+    ∀ a ∈ grpcTable, ∀ b ∈ grpcTable, a.2.path = b.2.path → a.1 = b.1 := by
+  decide
+
+/-- every selected RPC has a signature, and it is the canonical pair of types in MIXINS_MAP's spelling
+(the REST mixin methods are typed with these strings) -/
+theorem signatures_canonical (y : Yaml) (api : Api) (m : String) (hm : m ∈ keys (mixinApiMethods y api)) :
+    ∃ t ∈ canonicalTypes, t.1 = m ∧
+      dictGet (mixinApiSignatures Pinned.mixinsMap y api) m = some (some (pyName t.2.1, pyName t.2.2)) := by
+  obtain ⟨a, _, hr, _⟩ := (mixin_exposed_iff y api m).1 hm
+  have hc : ∃ t ∈ canonicalTypes, t.1 = m := by
+    have h1 := hr.1
+    cases a <;> simp only [MixinApi.methods, List.mem_cons, List.not_mem_nil, or_false] at h1 <;>
+      rcases h1 with rfl | rfl | rfl | rfl | rfl <;> decide
+  obtain ⟨t, ht, rfl⟩ := hc
+  refine ⟨t, ht, rfl, ?_⟩
+  have hmap := mixins_map_is_canonical t ht
+  unfold mixinApiSignatures
+  have := dictGet_map ((keys (mixinApiMethods y api)).map fun n => (n, ()))
+    (fun n _ => (Pinned.mixinsMap.find? (·.1 == n)).map (·.2)) t.1
+  simp only [List.map_map] at this
+  have hk : dictGet ((keys (mixinApiMethods y api)).map fun n => (n, ())) t.1 = some () := by
+    have h2 : t.1 ∈ keys ((keys (mixinApiMethods y api)).map fun n => (n, ())) := by
+      simpa [keys] using hm
+    have h3 := (dictGet_isSome_iff _ _).2 h2
+    cases hd : dictGet ((keys (mixinApiMethods y api)).map fun n => (n, ())) t.1 with
+    | none => simp [hd] at h3
+    | some u => rfl
+  rw [hk] at this
+  simpa [Function.comp_def, hmap] using this
+
+example : "GetOperation" ∈ keys (mixinApiMethods ⟨["google.longrunning.Operations"],
+    [⟨"google.longrunning.Operations.GetOperation", ⟨"get", "/v1/{name=operations/*}", ""⟩, []⟩]⟩ ⟨[["GetBook"]]⟩) := by
+  decide
+
+/-- the wrapped-method tables and the REST transport carry exactly the selected RPCs; the gRPC transports
+carry what the clients expose -/
+theorem transports_follow_selection (y : Yaml) (api : Api) (o : Opts) (k : ClientKind) :
+    wrappedMixins y api = keys (mixinApiMethods y api) ∧ restTransportMixins y api = keys (mixinApiMethods y api) ∧
+      grpcTransportMixins y api o = exposedMixins y api o k := by
+  cases k <;> exact ⟨rfl, rfl, rfl⟩
+
 /-! ## Legacy `add-iam-methods` -/
 
 /-- **The legacy option puts the three IAM RPCs on the sync and the asyncio client alike**, whatever the YAML. -/
@@ -640,12 +695,12 @@ theorem refExt_spec : ApplySpec refExt := by
 /-- **Over REST the call uses a binding of the YAML rule selected for this RPC**: the verb is that
 binding's `pattern` member, the path is that binding's URI template expanded from the request, the query
 is what that binding leaves over, and a body, if one is sent, is that binding's body. -/
-theorem rest_uses_rule_verb_path_body (ext : Ext) (res : List String) (y : Yaml) (api : Api) (m : String)
+theorem rest_uses_rule_verb_path_body (ext : Ext) (nm : Names) (y : Yaml) (api : Api) (m : String)
     (req : Req) (v p : String) (body : Option Req) (q : Req)
-    (h : restCall ext res y api m req = .sent v p body q) :
+    (h : restCall ext nm y api m req = .sent v p body q) :
     ∃ rule, dictGet (mixinApiMethods y api) m = some rule ∧
-      ∃ b ∈ rule.bindings, ∃ r t, tryParse res b = some r ∧ ext.apply r req = some t ∧
-        r.method = b.verb ∧ r.uri = b.uri ∧
+      ∃ b ∈ rule.bindings, ∃ r t, tryParse nm b = some r ∧ ext.apply r req = some t ∧
+        r.method = b.verb ∧ r.uri = convertUri nm.fixPath b.uri ∧
         v = httpVerb t.method ∧ p = t.uri ∧ q = t.query ∧ (body = t.body ∨ body = none) := by
   unfold restCall at h
   rw [http_options_from_rule] at h
@@ -654,7 +709,7 @@ theorem rest_uses_rule_verb_path_body (ext : Ext) (res : List String) (y : Yaml)
   | some rule =>
     refine ⟨rule, rfl, ?_⟩
     simp only [hrule, Option.map_some] at h
-    cases hopts : rule.bindings.filterMap (tryParse res) with
+    cases hopts : rule.bindings.filterMap (tryParse nm) with
     | nil => simp [hopts] at h
     | cons r0 rs =>
       simp only [hopts] at h
@@ -665,7 +720,7 @@ theorem rest_uses_rule_verb_path_body (ext : Ext) (res : List String) (y : Yaml)
         obtain ⟨r, hr, happ⟩ := List.exists_of_findSome?_eq_some ht
         rw [← hopts, List.mem_filterMap] at hr
         obtain ⟨b, hb, hparse⟩ := hr
-        have hp := tryParse_verb_uri_body res b r hparse
+        have hp := tryParse_verb_uri_body nm b r hparse
         refine ⟨b, hb, r, t, hparse, happ, hp.1, hp.2.1, ?_⟩
         cases hb0 : r0.body with
         | none =>
@@ -681,13 +736,13 @@ theorem rest_uses_rule_verb_path_body (ext : Ext) (res : List String) (y : Yaml)
 
 /-- **When the bindings of the rule agree on whether there is a body** (in particular when the rule
 has a single binding) **the call carries exactly the selected binding's verb, path, body and query.** -/
-theorem rest_body_of_uniform_bindings (ext : Ext) (hspec : ApplySpec ext) (res : List String) (y : Yaml)
+theorem rest_body_of_uniform_bindings (ext : Ext) (hspec : ApplySpec ext) (nm : Names) (y : Yaml)
     (api : Api) (m : String) (req : Req) (rule : Rule) (r0 : HttpRule) (rs : List HttpRule) (t : Transcoded)
     (hrule : dictGet (mixinApiMethods y api) m = some rule)
-    (hopts : rule.bindings.filterMap (tryParse res) = r0 :: rs)
+    (hopts : rule.bindings.filterMap (tryParse nm) = r0 :: rs)
     (huni : ∀ r ∈ rs, r.body.isSome = r0.body.isSome)
     (ht : transcode ext (r0 :: rs) req = some t) :
-    restCall ext res y api m req = .sent (httpVerb t.method) t.uri t.body t.query := by
+    restCall ext nm y api m req = .sent (httpVerb t.method) t.uri t.body t.query := by
   obtain ⟨r, hr, happ⟩ := List.exists_of_findSome?_eq_some ht
   have hb : t.body.isSome = r0.body.isSome := by
     have h1 := (hspec r req t happ).2
@@ -715,12 +770,12 @@ example : ApplySpec refExt ∧ (∀ r ∈ ([] : List HttpRule), r.body.isSome = 
 
 /-- whether a body is sent at all is decided by the FIRST parseable binding (`body_spec =
 mixin_http_options[name][0].body` in the templates), not by the binding that was selected -/
-theorem rest_body_sent_iff_first_binding_has_body (ext : Ext) (res : List String) (y : Yaml) (api : Api)
+theorem rest_body_sent_iff_first_binding_has_body (ext : Ext) (nm : Names) (y : Yaml) (api : Api)
     (m : String) (req : Req) (v p : String) (body : Option Req) (q : Req)
-    (h : restCall ext res y api m req = .sent v p body q) :
-    ∃ r0 rs, dictGet (mixinHttpOptions res y api) m = some (r0 :: rs) ∧ (body.isSome ↔ r0.body.isSome) := by
+    (h : restCall ext nm y api m req = .sent v p body q) :
+    ∃ r0 rs, dictGet (mixinHttpOptions nm y api) m = some (r0 :: rs) ∧ (body.isSome ↔ r0.body.isSome) := by
   unfold restCall at h
-  cases hopts : dictGet (mixinHttpOptions res y api) m with
+  cases hopts : dictGet (mixinHttpOptions nm y api) m with
   | none => simp [hopts] at h
   | some l =>
     cases l with
@@ -752,7 +807,7 @@ def cexRestReq : Req := [("resource", "\"shelves/s1\""), ("options", "{\"request
 matching the additional binding goes out as `POST` with NO body — the non-path fields are lost
 (reproduced on the emitted library: finding `rest-body-follows-first-binding`) … -/
 theorem rest_mixed_bindings_drop_body_counterexample :
-    restCall refExt [] cexRestYaml cexRestApi "GetIamPolicy" cexRestReq
+    restCall refExt ⟨[], id⟩ cexRestYaml cexRestApi "GetIamPolicy" cexRestReq
         = .sent "POST" "/v1/shelves/s1:getIamPolicy" none [] ∧
       (refApply ⟨"post", "/v1/{resource=shelves/*}:getIamPolicy", some "*"⟩ cexRestReq).map (·.body)
         = some (some [("options", "{\"requestedPolicyVersion\": 3}")]) := by
@@ -760,7 +815,38 @@ theorem rest_mixed_bindings_drop_body_counterexample :
 
 /-- … and the other way round (first binding with a body, selected binding without) the call raises `KeyError`. -/
 theorem rest_mixed_bindings_keyerror_counterexample :
-    restCall refExt [] cexRestYaml cexRestApi "SetIamPolicy" cexRestReq = .keyError := by
+    restCall refExt ⟨[], id⟩ cexRestYaml cexRestApi "SetIamPolicy" cexRestReq = .keyError := by
   decide
+
+/-! ## Non-vacuity: one concrete configuration meeting the hypotheses of the implications above -/
+
+def exYaml : Yaml := ⟨["google.longrunning.Operations", "google.iam.v1.IAMPolicy"],
+  [⟨"google.longrunning.Operations.GetOperation", ⟨"get", "/v1/{name=operations/*}", ""⟩, []⟩,
+   ⟨"google.longrunning.Operations.WaitOperation", ⟨"post", "/v1/{name=operations/*}:wait", "*"⟩, []⟩,
+   ⟨"google.iam.v1.IAMPolicy.GetIamPolicy", ⟨"get", "/v1/{resource=books/*}:getIamPolicy", ""⟩, []⟩,
+   ⟨"google.cloud.location.Locations.GetLocation", ⟨"get", "/v1/{name=projects/*/locations/*}", ""⟩, []⟩]⟩
+def exApi : Api := ⟨[["GetBook", "SetIamPolicy"]]⟩
+
+-- `mixin_rule_from_yaml`, `rest_uses_rule_verb_path_body`, `rest_body_of_uniform_bindings`, `rest_body_sent_iff…`
+example : dictGet (mixinApiMethods exYaml exApi) "WaitOperation"
+    = some ⟨"google.longrunning.Operations.WaitOperation", ⟨"post", "/v1/{name=operations/*}:wait", "*"⟩, []⟩ := by decide
+example : restCall refExt ⟨[], id⟩ exYaml exApi "WaitOperation" [("name", "\"operations/o1\""), ("timeout", "\"3s\"")]
+    = .sent "POST" "/v1/operations/o1:wait" (some [("timeout", "\"3s\"")]) [] := by decide
+example : restCall refExt ⟨[], id⟩ exYaml exApi "GetOperation" [("name", "\"operations/o1\"")]
+    = .sent "GET" "/v1/operations/o1" none [] := by decide
+-- `none_of_unlisted_api`: Locations has a rule but is not listed
+example : ¬ Listed exYaml .locations ∧ "GetLocation" ∈ MixinApi.locations.methods ∧
+    "GetLocation" ∉ keys (mixinApiMethods exYaml exApi) := by decide
+-- `iam_yields_to_same_named` (the API's SetIamPolicy has no rule here, so GetIamPolicy stays: `mixin_exposed_iff_no_override`)
+example : ["GetBook", "SetIamPolicy"] ∈ exApi.services ∧ "SetIamPolicy" ∈ MixinApi.iam.methods ∧
+    "SetIamPolicy" ∉ keys (mixinApiMethods exYaml exApi) ∧ "GetIamPolicy" ∈ keys (mixinApiMethods exYaml exApi) := by decide
+-- `grpc_call_sent_iff`, `exposed_iff_selected`
+example : grpcCall exYaml exApi ⟨false⟩ .async "GetIamPolicy" = .sent ⟨"/google.iam.v1.IAMPolicy/GetIamPolicy",
+    "google.iam.v1.GetIamPolicyRequest", .message "google.iam.v1.Policy", "resource"⟩ := by decide
+-- `none_when_unlisted`
+example : ∀ a, ¬ Listed ⟨["google.longrunning.operations"], exYaml.rules⟩ a := by
+  intro a; cases a <;> decide
+-- `legacy_call_both_clients`
+example : "TestIamPermissions" ∈ tmplIam := by decide
 
 end GapicModel.Props.C17
